@@ -167,9 +167,24 @@ Fixpoint ev (md : mode) (D : decls) (st : state) (c : ctx) (e : expr) {struct e}
 
 (* ------------------------------------------------------------------ validated fragment *)
 (* The simulator's engines disagree with each other (findings, design/C02.md) on: part selects of signed
-   variables, $signed/$unsigned applied to anything but a variable or a concatenation, `e as w` on a
-   signed operand or on an operator expression that is not really narrowed.  The reference is validated
+   variables, $signed/$unsigned applied to anything but a variable, `e as w` on a signed operand or
+   with w not smaller than the operand's width.  The reference is validated
    only on programs avoiding these forms; [supported] is checked by the driver on every program. *)
+(* signedness of the analyzer's Comptime TYPE (Op::eval_type_*: binary and ternary nodes clone the type of
+   their first operand); a narrowing cast sign-extends when it is true *)
+Fixpoint tsigned (D : decls) (e : expr) {struct e} : bool :=
+  match e with
+  | ELit _ sg _ _ => sg
+  | EVar x => d_signed (D x)
+  | ESel x _ _ => d_signed (D x)
+  | EUn o a => match o with UPlus | UMinus => tsigned D a | _ => false end
+  | EBin _ a _ => tsigned D a
+  | ETern c _ _ => tsigned D c
+  | ECat _ => false
+  | ECast _ a => tsigned D a
+  | ESign sg _ => sg
+  end.
+
 Definition leaflike (e : expr) : bool :=
   match e with ELit _ _ _ _ | EVar _ | ESel _ _ _ | ECat _ => true | _ => false end.
 
@@ -185,9 +200,10 @@ Fixpoint supported (D : decls) (e : expr) {struct e} : bool :=
       (fix go (l : list (expr * N)) : bool :=
          match l with [] => true | (a, _) :: t => supported D a && go t end) items
   | ECast w a =>
-      supported D a && negb (cs (gather D a)) && (leaflike a || (w <? cw (gather D a)))
-  | ESign _ a =>
-      supported D a && match a with EVar _ | ECat _ => true | _ => false end
+      (* only a real narrowing of an unsigned operand: a widening cast of a variable is a no-op in the
+         simulator (the operand keeps its own width in concatenations and reductions) *)
+      supported D a && negb (cs (gather D a)) && negb (tsigned D a) && (w <? cw (gather D a))
+  | ESign _ a => match a with EVar _ => true | _ => false end
   end.
 
 (* variables read by an expression *)
